@@ -240,6 +240,19 @@ def _eval_valid(c):
     require(same_bits(np.ascontiguousarray(r), base),
             "result depends on layout / thread count / out buffer (not bit-identical to plain call)",
             got=r.tolist()[:5], plain=base.tolist()[:5])
+    # the same array OBJECT with new contents (a buffer refilled in place, X *= s): the kernel sees the new values
+    if not c.get("readonly") and n > 1 and c["ylayout"] != "row_of_X":
+        V_saved = V.copy()              # (X may BE V for the C layout)
+        V2 = V_saved[::-1].copy()
+        X[...] = V2
+        with threadpool_limits(limits=c["threads"], user_api="openmp"):
+            r2 = fn(X, y)
+        ref2 = reference(c["kernel"], V2, v)
+        bad2 = ~(np.abs(r2 - ref2) <= rtol * np.maximum(np.abs(ref2), np.abs(r2)) + 1e-300)
+        require(not bad2.any(), "kernel result on an array that was refilled in place is not that of its new contents",
+                kernel=c["kernel"], dtype=c["dtype"], xlayout=c["xlayout"], row=int(np.argmax(bad2)),
+                got=r2[bad2][:3].tolist(), want=ref2[bad2][:3].tolist())
+        X[...] = V_saved
     # repetition with many threads (race search)
     if c["threads"] > 1 and n > 1:
         with threadpool_limits(limits=c["threads"], user_api="openmp"):
